@@ -29,14 +29,14 @@ func init() {
 	components["slots"] = &component{gen: slotsGen, enum: slotsEnum, run: slotsRun}
 }
 
-func hx(b []byte) string {
+func slHx(b []byte) string {
 	if len(b) == 0 {
 		return "-"
 	}
 	return hex.EncodeToString(b)
 }
 
-func unhx(s string) []byte {
+func slUnhx(s string) []byte {
 	if s == "-" {
 		return nil
 	}
@@ -105,7 +105,7 @@ func (g *slotsGenState) park(seq, n int) {
 	case 0:
 		arg = g.r.pick(0, -1, n-1, n+1, 1<<40, math.MaxInt64, math.MinInt64)
 	}
-	fmt.Fprintf(g.w, "! park %d %s %d\n", seq, hx(slotsPacket(g.p, n)), arg)
+	fmt.Fprintf(g.w, "! park %d %s %d\n", seq, slHx(slotsPacket(g.p, n)), arg)
 	for _, s := range g.parked {
 		if s == seq {
 			return
@@ -233,7 +233,7 @@ func slotsOffGen(r *rng, maxops int, w *bufio.Writer) {
 				arg = r.pick(0, -1, sz-1, sz+1, 1<<40)
 			}
 			p++
-			fmt.Fprintf(w, "! add %s %d\n", hx(slotsPacket(p, sz)), arg)
+			fmt.Fprintf(w, "! add %s %d\n", slHx(slotsPacket(p, sz)), arg)
 			if total+gone < maxBytes || sz == 0 && gone < maxBytes { // believed accepted
 				live = append(live, next)
 				next++
@@ -284,7 +284,7 @@ func slotsEnum(args []string, w *bufio.Writer) {
 			fmt.Fprintf(w, "# script %d\n! new %d %d\n", k, maxSlots, maxBytes)
 			for i, o := range prefix {
 				if o.kind == 0 {
-					fmt.Fprintf(w, "! park %d %s %d\n", o.seq, hx(slotsPacket(i+1, o.n)), o.n)
+					fmt.Fprintf(w, "! park %d %s %d\n", o.seq, slHx(slotsPacket(i+1, o.n)), o.n)
 				} else {
 					fmt.Fprintf(w, "! take %d\n", o.seq)
 				}
@@ -325,7 +325,7 @@ func slotsRun(script []string, w *bufio.Writer) {
 		if slot.Index < 0 || slot.Length < 0 || slot.Index+slot.Length > b.Len() || slot.Index+slot.Length < 0 {
 			return "out"
 		}
-		return hx(b.SavedSlot(slot))
+		return slHx(b.SavedSlot(slot))
 	}
 	bi := func(v bool) int {
 		if v {
@@ -352,7 +352,7 @@ func slotsRun(script []string, w *bufio.Writer) {
 				next = 0
 				out = "unit"
 			case "park":
-				data := unhx(f[2])
+				data := slUnhx(f[2])
 				b.Write(data)
 				b.Commit(len(data))
 				slot := b.Save(atoi(f[3]))
@@ -360,18 +360,18 @@ func slotsRun(script []string, w *bufio.Writer) {
 				if !ok {
 					b.Discard(slot)
 				}
-				out = fmt.Sprintf("park %d %d %d %s %d %d %s", slot.Index, slot.Length, bi(ok), slotsErr(err), sq.Bytes(), sq.Size(), hx(b.Saved()))
+				out = fmt.Sprintf("park %d %d %d %s %d %d %s", slot.Index, slot.Length, bi(ok), slotsErr(err), sq.Bytes(), sq.Size(), slHx(b.Saved()))
 			case "take":
 				slot, ok := sq.Pop(atoi(f[1]))
 				if !ok {
-					out = fmt.Sprintf("take 0 %d %d out %d %d %s", slot.Index, slot.Length, sq.Bytes(), sq.Size(), hx(b.Saved()))
+					out = fmt.Sprintf("take 0 %d %d out %d %d %s", slot.Index, slot.Length, sq.Bytes(), sq.Size(), slHx(b.Saved()))
 					break
 				}
 				ad := addressed(slot)
 				b.Discard(slot)
-				out = fmt.Sprintf("take 1 %d %d %s %d %d %s", slot.Index, slot.Length, ad, sq.Bytes(), sq.Size(), hx(b.Saved()))
+				out = fmt.Sprintf("take 1 %d %d %s %d %d %s", slot.Index, slot.Length, ad, sq.Bytes(), sq.Size(), slHx(b.Saved()))
 			case "add":
-				data := unhx(f[1])
+				data := slUnhx(f[1])
 				b.Write(data)
 				b.Commit(len(data))
 				slot := b.Save(atoi(f[2]))
@@ -382,7 +382,7 @@ func slotsRun(script []string, w *bufio.Writer) {
 					held[next] = s2
 					next++
 				}
-				out = fmt.Sprintf("add %d %d %s %d %d %s", slot.Index, slot.Length, slotsErr(err), s2.Index, s2.Length, hx(b.Saved()))
+				out = fmt.Sprintf("add %d %d %s %d %d %s", slot.Index, slot.Length, slotsErr(err), s2.Index, s2.Length, slHx(b.Saved()))
 			case "off":
 				h := atoi(f[1])
 				s0, known := held[h]
@@ -394,7 +394,7 @@ func slotsRun(script []string, w *bufio.Writer) {
 				slot := off.Offset(s0)
 				ad := addressed(slot)
 				b.Discard(slot)
-				out = fmt.Sprintf("off %d %d %s %s", slot.Index, slot.Length, ad, hx(b.Saved()))
+				out = fmt.Sprintf("off %d %d %s %s", slot.Index, slot.Length, ad, slHx(b.Saved()))
 			case "reset":
 				if len(held) > 0 {
 					out = "skip"
